@@ -95,6 +95,42 @@ def lib_args(dotted, call):
     return out
 
 
+def _through_slots(ci, e, depth=0):
+    """see through the writer's own fill-once slots:  self._helper()  ->  the expression the helper returns;  self._slot  ->  the one
+    non-None expression ever stored in it (anywhere in the class)"""
+    import copy as _copy
+    if depth > 3:
+        return e
+
+    class Tr(ast.NodeTransformer):
+        def visit_Call(self, node):
+            self.generic_visit(node)
+            f_ = node.func
+            if isinstance(f_, ast.Attribute) and isinstance(f_.value, ast.Name) and f_.value.id == "self" and not node.args and not node.keywords:
+                m = ci.find_method(f_.attr)
+                if m is not None:
+                    rets = [r.value for r in ast.walk(m.node) if isinstance(r, ast.Return) and r.value is not None]
+                    if rets and len({src(r) for r in rets}) == 1:
+                        return _through_slots(ci, _copy.deepcopy(rets[0]), depth + 1)
+            return node
+
+        def visit_Attribute(self, node):
+            self.generic_visit(node)
+            if isinstance(node.value, ast.Name) and node.value.id == "self" and isinstance(node.ctx, ast.Load):
+                vals = []
+                for c in ci.mro():
+                    for fm in c.methods.values():
+                        for n in ast.walk(fm.node):
+                            if isinstance(n, ast.Assign) and len(n.targets) == 1 and isinstance(n.targets[0], ast.Attribute) and \
+                                    isinstance(n.targets[0].value, ast.Name) and n.targets[0].value.id == "self" and n.targets[0].attr == node.attr and \
+                                    not (isinstance(n.value, ast.Constant) and n.value.value is None):
+                                vals.append(n.value)
+                if len(vals) == 1 and not (isinstance(vals[0], ast.Call) and isinstance(vals[0].func, ast.Name)):
+                    return _through_slots(ci, _copy.deepcopy(vals[0]), depth + 1)
+            return node
+    return Tr().visit(_copy.deepcopy(e))
+
+
 def io_writer_table(repo: Repo):
     """GridWriter.save_*  ->  {method: (family, path param ok, getter, direct, node)}"""
     ci = repo.cls("molgri.io", "GridWriter")
@@ -113,7 +149,21 @@ def io_writer_table(repo: Repo):
             la = lib_args(dn, c)
             cn = Canon(Canon.single_defs(fi.node.body, exclude=set(params)))
             rec["path_ok"] = len(la) >= 1 and isinstance(la[0], ast.Name) and la[0].id in params
-            g, direct, kw = getter_of(cn.expand(la[1]), {"self.fg"}) if len(la) > 1 else (None, False, {})
+            val = _through_slots(ci, cn.expand(la[1])) if len(la) > 1 else None
+            g, direct, kw = getter_of(val, {"self.fg"}) if val is not None else (None, False, {})
+            # a local that holds the value and is modified afterwards (x.data = ..., x[...] = ..., x *= ...) is not the getter result any more
+            if g is not None and len(la) > 1 and isinstance(la[1], ast.Name):
+                nm = la[1].id
+                for n in ast.walk(fi.node):
+                    tg = n.targets[0] if isinstance(n, ast.Assign) and len(n.targets) == 1 else (n.target if isinstance(n, ast.AugAssign) else None)
+                    if tg is not None and not isinstance(tg, ast.Name):
+                        root = tg
+                        while isinstance(root, (ast.Attribute, ast.Subscript)):
+                            root = root.value
+                        if isinstance(root, ast.Name) and root.id == nm:
+                            direct = False
+                    if isinstance(n, ast.AugAssign) and isinstance(n.target, ast.Name) and n.target.id == nm:
+                        direct = False
             rec["getter"], rec["direct"], rec["kwargs"] = g, direct, kw
             rec["call"] = c
         out[name] = rec
